@@ -386,3 +386,20 @@ impl ProgressTracker {
         }
     }
 }
+
+#[cfg(tikv_raft_rs_verif)]
+#[allow(missing_docs)]
+impl ProgressTracker {
+    pub fn verif_from_parts(progress: ProgressMap, conf: Configuration, votes: HashMap<u64, bool>, max_inflight: usize, group_commit: bool) -> Self {
+        ProgressTracker { progress, conf, votes, max_inflight, group_commit }
+    }
+}
+#[cfg(tikv_raft_rs_verif)]
+#[allow(missing_docs)]
+impl Configuration {
+    pub fn verif_from_parts(incoming: HashSet<u64>, outgoing: HashSet<u64>, learners: HashSet<u64>, learners_next: HashSet<u64>, auto_leave: bool) -> Self {
+        let mut voters = JointConfig::new(incoming);
+        voters.outgoing = crate::MajorityConfig::new(outgoing);
+        Configuration { voters, learners, learners_next, auto_leave }
+    }
+}
